@@ -28,19 +28,25 @@ import common
 import oracle
 import treecheck
 from props import c06_float as F
+from props import c06_history
 
 warnings.simplefilter("ignore")
 MODULE = "ColaVerif.Properties.C06"
 DRIVER = "DriverC06.lean"
 # compositions with the sibling families (exact-solve contract of the iterative solvers discharged by their theorems);
 # each is gated like MODULE, unless the sibling module itself does not build (then: reported as not discharged, not a C06 failure)
-BRIDGES = [("ColaVerif.Properties.C06.GMRES", "ColaVerif.Properties.C13"), ("ColaVerif.Properties.C06.CG", "ColaVerif.Properties.C12")]
+# round 5: C06.Nested (a CG / GMRES node INSIDE a Kronecker / Product / BlockDiag node, any number of columns) needs both siblings
+BRIDGES = [("ColaVerif.Properties.C06.GMRES", "ColaVerif.Properties.C13"), ("ColaVerif.Properties.C06.CG", "ColaVerif.Properties.C12"),
+           ("ColaVerif.Properties.C06.Nested", ("ColaVerif.Properties.C13", "ColaVerif.Properties.C12"))]
 
 # Genuine defects of cola found by this check, not yet recorded in /verif/known_findings.json
 # (treated as known so that the check exits 0 on the unchanged tree; see the builder report).
 PROVISIONAL_KNOWN = {}   # decided: recorded in /verif/known_findings.json
 # (the three recorded clauses of this check -- scalar-times-annotated, gmres-zero-rhs-column, gmres-krylov-breakdown -- are
 # read from known_findings.json through common.known_clauses)
+
+# per-column excuse of the GMRES clauses: what was excused / compared (evidence key `per_column_excuse`)
+COLSTAT = collections.Counter()
 
 # clauses whose effect is not deterministic (floating point only): the product may succeed or fail
 EITHER = {"gmres-krylov-breakdown"}
@@ -564,8 +570,15 @@ def classify(case, ans, real):
                     if match(real[key]["v"], wantc, mode, tol, shp) == "bad":
                         return "violation", f"'{key}' differs from the code model and the code model from the exact inverse"
                 return "known?", list(code.get("res_clauses", []))
-    expect = {"dense": list(code.get("dense_clauses", [])), "mm": list(code.get("mm_clauses", [])),
-              "solve": list(code.get("mm_clauses", []))}
+    # PER-COLUMN attribution of the GMRES clauses (driver: colSees / denseColSees): expect[key][j] = the clauses attributed to
+    # column j of that observation.  Only those columns are excused; the other columns of the same product are compared.
+    def col_clauses(name_cols, name_all, ncols):
+        per = code.get(name_cols)
+        if per is None or len(per) != ncols:        # an older driver: the whole observation carries the union
+            return [list(code.get(name_all, [])) for _ in range(ncols)]
+        return [list(x) for x in per]
+    expect = {"dense": col_clauses("dense_col_clauses", "dense_clauses", n), "mm": col_clauses("mm_col_clauses", "mm_clauses", k)}
+    expect["solve"] = expect["mm"]
     obs = [("dense", Ainv, (n, n))]
     obs += [("mm", to_np(spec["mm"]), bshape), ("solve", to_np(spec["mm"]), bshape)]
     if code["direct"]:
@@ -574,6 +587,7 @@ def classify(case, ans, real):
             xl_want = xl_want[0:1]
         obs += [("rmm", xl_want, lshape), ("T", to_np(spec["T"]), (n, n))]
     clauses, unexpected_ok = [], []
+    excused_cols = {}
     # a zero column is a deterministic failure only when the GMRES node is the root (it sees the caller's operand);
     # below other nodes an exactly-zero column of the model is rounding noise in floating point and the solve succeeds
     either = set(EITHER) | (set() if code["skel"][0] == "iter:GMRES" else {"gmres-zero-rhs-column"})
@@ -581,17 +595,52 @@ def classify(case, ans, real):
         r = real.get(key)
         if r is None:
             continue
+        per = expect.get(key)
+        union = sorted({c for cs in (per or []) for c in cs})
+        if union:
+            ncol = len(per)
+            bad_cols = [j for j in range(ncol) if per[j]]
+            good_cols = [j for j in range(ncol) if not per[j]]
+            excused_cols[key] = bad_cols
+            if "err" in r:
+                # the product raised as a whole: no column can be compared.  The recorded clauses predict two failure classes only: the
+                # LinAlgError of the batched small solve, and the ValueError by which a LAPACK wrapper downstream (scipy check_finite) refuses
+                # the NaN column; any other exception is not excused
+                nan_refused = r["err"] == "error:ValueError" and "infs or NaNs" in str(r.get("msg"))
+                if r["err"] != "error:LinAlgError" and not nan_refused:
+                    problems.append((key, f"raised {r['err']}: {r.get('msg')} (the attributed clauses {union} predict NaN columns, LinAlgError, or "
+                                          "a downstream 'array must not contain infs or NaNs' only)"))
+                    continue
+                clauses += [c for c in union if c not in clauses]
+                COLSTAT["raised-as-a-whole:" + str(r["err"])] += 1
+                continue
+            v = np.asarray(r["v"])
+            if v.shape != shp:
+                problems.append((key, f"shape {v.shape}, expected {shp}"))
+                continue
+            v2 = v.reshape(shp[0], -1)
+            w2 = np.asarray(want).reshape(shp[0], -1)
+            # (a) the columns NO clause is attributed to are compared like any other product
+            if good_cols:
+                COLSTAT["columns-compared-beside-an-excused-one"] += len(good_cols)
+                mg = match(v2[:, good_cols], w2[:, good_cols], mode, tol, (shp[0], len(good_cols)))
+                if mg == "rounded":
+                    rounded += 1
+                elif mg == "bad":
+                    problems.append((key, f"columns {good_cols} (no clause attributed; columns {bad_cols} are excused) differ from the exact solution"))
+            # (b) the attributed columns are expected to fail (NaN or wrong values), each by its own clauses
+            for j in bad_cols:
+                COLSTAT["columns-excused"] += 1
+                mj = match(v2[:, [j]], w2[:, [j]], mode, tol, (shp[0], 1))
+                if mj == "bad":
+                    clauses += [c for c in per[j] if c not in clauses]
+                elif not (set(per[j]) & either):
+                    unexpected_ok.append(f"{key}[:, {j}]")
+            continue
         if "err" in r:
             m, why = "bad", f"raised {r['err']}: {r.get('msg')}"
         else:
             m, why = match(r["v"], want, mode, tol, shp), "value"
-        if expect.get(key):
-            # a modelled GMRES defect reaches this product: it is expected to fail (error, NaN or wrong values)
-            if m == "bad":
-                clauses += [c for c in expect[key] if c not in clauses]
-            elif not (set(expect[key]) & either):
-                unexpected_ok.append(key)
-            continue
         if m == "rounded":
             rounded += 1
         elif m == "bad":
@@ -607,11 +656,11 @@ def classify(case, ans, real):
         return "known?", clauses
     # residual of the returned solution (backward error)
     r = real.get("mm")
-    if r is not None and "v" in r and not problems and not expect["mm"]:
+    keep = [j for j in range(k) if not expect["mm"][j]]
+    if r is not None and "v" in r and not problems and keep and np.asarray(r["v"]).shape == bshape:
         A = real["Adense"].astype(np.complex128)
-        x = np.asarray(r["v"]).astype(np.complex128)
-        bb = to_np(case_x(case))
-        bb = bb[:, 0] if case["vec"] else bb
+        x = np.asarray(r["v"]).astype(np.complex128).reshape(n, -1)[:, keep]
+        bb = to_np(case_x(case))[:, keep]
         res = float(np.abs(A @ x - bb).max(initial=0))
         bound = (tol if mode == "tol" else 1e-5 if any(d in SINGLE for d in leaf_dts(case["op"]) + [case["xdt"]]) else 1e-12) \
             * (float(np.abs(A).max(initial=0)) * n * max(1.0, float(np.abs(x).max(initial=0))) + float(np.abs(bb).max(initial=0)))
@@ -668,10 +717,11 @@ def all_gates(ctx):
             listed = len(re.findall(r"^#print axioms", open(path).read(), flags=re.M))
         except OSError:
             listed = 0
-        rc, out = common.lake_build([sibling])
+        sibs = [sibling] if isinstance(sibling, str) else list(sibling)
+        rc, out = common.lake_build(sibs)
         if rc != 0:
             report[mod] = {"status": "not discharged", "obligations": listed,
-                           "reason": f"the sibling module {sibling} does not build; the composition was not checked (not a failure of this family)"}
+                           "reason": f"the sibling module(s) {', '.join(sibs)} do not build; the composition was not checked (not a failure of this family)"}
             gate["obligations"] += listed
             continue
         g = common.lean_gate(ctx, mod)             # raises LeanGateError: a failure of this family's own module
@@ -846,6 +896,70 @@ def large_side_solves(ctx, stats):
         except Exception as ex:  # noqa: BLE001
             common.violation(ctx, {"auto_large_side": {"n": n, "raised": err_class(ex), "msg": str(ex)[:200]},
                                    "why": "inv(A, Auto(tol=..., max_iters=...)) @ b raised on a PSD matmul-defined operator with 1001^2 entries"})
+    # round 5, n = 1001, matmul-defined NON-PSD (indefinite diagonal) operator: Auto hands over to GMRES with the caller's options; GMRES is
+    # RUN TO THE GRADE of the right-hand side (s distinct eigenvalues, every eigenspace met by b: grade = s = max_iters), the float-side situation
+    # of theorem C06_solve_gmres_at_grade; claim: per column ||b - A x||_2 <= 100 n u kappa ||b||_2 (the heuristic GMRES constant of the float stream)
+    pool = [-7.0, -4.0, -3.0, -2.0, -1.0, -0.5, 0.5, 1.0, 2.0, 3.0, 5.0, 8.0]
+    for rep in range(2 if not ctx.thorough else 6):
+        n = 1001
+        s = rng.choice([3, 5, 6, 8])
+        ev = sorted(rng.sample(pool, s))
+        idx = [j % s for j in range(n)]
+        rng.shuffle(idx)
+        d = np.array([ev[j] for j in idx])
+        kcols = rng.choice([1, 2, 3])
+        vec = rep % 3 == 2
+        b = G.rs.randn(n, kcols)
+        how = "Auto" if rep % 2 == 0 else "GMRES"
+        gtol = rng.choice([1e-9, 1e-7])
+        A = LinearOperator(np.float64, (n, n), matmat=lambda X, d=d: d[:, None] * X)
+        stats["auto-evaluations"] += 1
+        entry = {"n": n, "psd": False, "call": f"{how}(tol={gtol}, max_iters={s}) on a matmul-defined indefinite diagonal operator",
+                 "distinct_eigenvalues": ev, "columns": 1 if vec else kcols, "one_dimensional_rhs": vec}
+        try:
+            alg = Auto(tol=gtol, max_iters=s) if how == "Auto" else make_alg("GMRES", {"tol": gtol, "max_iters": s})
+            Bop = cola.linalg.inv(A, alg)
+            rs_real = rsolvers(Bop)
+            a = run_driver_safe([{"id": 0, "call": "auto", "psd": False, "rows": n, "cols": n, "opts": opts_json({"tol": gtol, "max_iters": s})}], nproc=1).get(0, {})
+            sd = None
+            if "solver" in a:
+                # the model: Auto(**d) above 10^6 entries, not PSD -> GMRES(**d) (autoChoice; C06_auto_forwards_options); an explicit GMRES object is kept
+                sd = solvers_differ(rs_real, [a["solver"]])
+                entry["model_solver"] = a["solver"]
+            else:
+                entry["model_solver"] = "not compared: " + str(a.get("error"))
+            bb = b[:, 0] if vec else b
+            x = np.asarray(Bop @ bb)
+            x2 = np.asarray(cola.linalg.solve(A, bb, alg))
+            bound = 100 * n * 2.0 ** -53 * float(np.abs(d).max() / np.abs(d).min())
+            rels = []
+            for xx in (x, x2):
+                xx = xx.reshape(n, -1).astype(np.longdouble)
+                r = bb.reshape(n, -1).astype(np.longdouble) - d.astype(np.longdouble)[:, None] * xx
+                rels.append((np.sqrt((r ** 2).sum(0)) / np.sqrt((bb.reshape(n, -1).astype(np.longdouble) ** 2).sum(0))).astype(float))
+            ok = bool(x.shape == bb.shape and x2.shape == bb.shape and np.all(np.isfinite(x)) and np.all(np.isfinite(x2))
+                      and max(rels[0].max(), rels[1].max()) <= bound)
+            sel_ok = rskel(Bop)[0] == "iter:GMRES" and sd is None
+            entry.update({"selected": rskel(Bop)[0], "real_solvers": rs_real, "relative_residual_inv_matmul": rels[0].tolist(),
+                          "relative_residual_solve": rels[1].tolist(), "bound": bound, "status": "ok" if ok and sel_ok else "violation"})
+            if not sel_ok:
+                common.violation(ctx, {"auto_options": {"n": n, "psd": False, "call": f"cola.linalg.inv(A, {how}(tol={gtol}, max_iters={s})) with A = LinearOperator(float64, "
+                                                        "(1001, 1001), matmat=lambda X: d[:, None] * X)", "selected": rskel(Bop)[0], "real_solvers": rs_real,
+                                                        "model_solver": entry.get("model_solver")},
+                                       "why": "on the large side of the switch a non-PSD operator must go to GMRES carrying the caller's options "
+                                              "(C06_auto_switch, C06_auto_forwards_options): " + str(sd)})
+            elif not ok:
+                common.violation(ctx, {"auto_large_side": {"n": n, "alg": f"{how}(tol={gtol}, max_iters={s})", "distinct_eigenvalues": ev, "diag": d.tolist(),
+                                                           "b": bb.tolist(), "relative_residual_inv_matmul": rels[0].tolist(),
+                                                           "relative_residual_solve": rels[1].tolist(), "bound": bound},
+                                       "why": "GMRES run to the grade of b (max_iters = number of distinct eigenvalues of the diagonal operator) must return the "
+                                              "solution: inv(A, alg) @ b / solve(A, b, alg) exceed 100 n u kappa in the relative residual"})
+        except Exception as ex:  # noqa: BLE001
+            entry.update({"status": "violation", "raised": err_class(ex)})
+            common.violation(ctx, {"auto_large_side": {"n": n, "alg": f"{how}(tol={gtol}, max_iters={s})", "distinct_eigenvalues": ev, "raised": err_class(ex),
+                                                       "msg": str(ex)[:200]},
+                                   "why": "inv(A, alg) @ b raised on a matmul-defined non-singular operator with 1001^2 entries (GMRES path)"})
+        out.append(entry)
     return out
 
 
@@ -1020,6 +1134,18 @@ def run(ctx):
         float_cov = float_stream(ctx, stats, float_hist, replay_case=rp.get("float_case"))
     if not ctx.replay or any(k in rp for k in ("auto_small_side", "auto_large_side", "auto_switch", "auto_options")):
         large_table = large_side_solves(ctx, stats)
+    # history stream (props/c06_history.py): a kept inverse applied again after in-place changes of the caller's buffers must solve the
+    # CURRENT system; once per run, and alone when a payload of this stream is replayed
+    history_cov = {"checks": 0, "problems": 0, "samples": []}
+    if not ctx.replay or rp.get("stream") == "history":
+        try:
+            h_checks, h_problems, h_samples = c06_history.history_stream(ctx, random.Random(int(rp.get("seed", ctx.seed)) * 7 + 606))
+        except Exception as ex:  # noqa: BLE001
+            h_checks, h_problems, h_samples = 0, [], []
+            ctx.notes.append(f"history stream failed: {type(ex).__name__}: {str(ex)[:200]}")
+        history_cov = {"checks": h_checks, "problems": len(h_problems), "samples": h_samples}
+        for problem in h_problems[:3]:
+            common.violation(ctx, {"stream": "history", **problem})
 
     for i in range(0, len(cases), 600):
         for (c, a, real, st, det) in evaluate(cases[i:i + 600]):
@@ -1099,6 +1225,12 @@ def run(ctx):
            "float_stream": float_cov, "float_paths": {k[11:]: v for k, v in float_hist.items() if k.startswith("float-path:")},
            "float_algorithms": {k[10:]: v for k, v in float_hist.items() if k.startswith("float-alg:")},
            "large_side": large_table,
+           "history_stream": history_cov,
+           "per_column_excuse": {**dict(COLSTAT), "rule": "a GMRES clause excuses only the columns of B @ b / solve / to_dense the driver attributes it to "
+                                 "(mm_col_clauses / dense_col_clauses); the remaining columns of the same product are compared with the exact solution "
+                                 "(value and residual); a product that raised as a whole is excused by the union of its columns' clauses only for the two exception "
+                                 "classes the clauses predict (LinAlgError of the batched small solve; ValueError 'array must not contain infs or NaNs' of a "
+                                 "LAPACK wrapper downstream of the NaN column), any other exception is a violation"},
            "outcomes": dict(stats),
            "algorithms": dict(alg_hist), "input_kinds": dict(kind_hist), "result_nodes": dict(rule_hist), "rhs": dict(dt_hist),
            "comparison_modes": dict(mode_hist), "auto_switch": auto_table, "samples": samples + float_cov.get("samples", []),
@@ -1120,9 +1252,11 @@ def run(ctx):
                                   "compared with the first on every LAPACK node (lapack_agree)"]}
     common.write_evidence(ctx, gate, cov, assumptions=[
         "NO THEOREM behind the clause attribution: the driver's predicates iterSees / kronSees / bdiagSees / denseSees (which operand each iterative node receives), "
+        "colSees / denseColSees (the same per column of the product: round 5, a clause excuses only the columns it is attributed to), "
         "zeroColumn / badZeroCol, gradeOf and badBreakdown (lean/DriverC06.lean) are executable diagnostics (partial defs) used ONLY to attribute a disagreement to the "
         "recorded clauses gmres-zero-rhs-column / gmres-krylov-breakdown; no theorem of C06 / C13 / C15 mentions them and nothing is proved about them; a clause is "
-        "applied only to the failure class it predicts (NaN / LinAlgError of the solve)",
+        "applied only to the failure class it predicts (NaN / wrong values in the attributed columns; LinAlgError of the solve or a downstream "
+        "'infs or NaNs' ValueError for the product as a whole)",
         "CONTRACT PARAMETERS of the theorems (Inv.Ext: recip, chol, lu, solve), each an assumed EXACT behaviour of an external routine at the nodes that "
         "fall to an algorithm: `LUContract` (xnp.lu / LAPACK getrf: P L U = A.to_dense(), p a permutation, triangular factors, invertible diagonals), "
         "`CholContract` (xnp.cholesky / potrf: L L^H = A.to_dense(), L lower triangular, invertible diagonal), `SolveContract` (CG / GMRES object: "
@@ -1133,8 +1267,13 @@ def run(ctx):
         "`SolveContract` per call is DISCHARGED for the solver models of C12 / C13 run to the grade of the right-hand side (C06_solve_cg_at_grade, "
         "C06_solve_gmres_at_grade / _at_breakdown, instantiated by C06_cg_at_grade_witness, C06_gmres_at_grade_witness, "
         "C06_gmres_at_breakdown_witness): remaining hypotheses `hpd`, `A_coercive`, `hb`, `tol_admissible`, `gradeReached` (CG); `resNonzero`, "
-        "`noEarlierBreakdown`, `gradeReached` / `exactBreakdown`, `maskExact`, `solverSound`, `injective` (GMRES); one column, x0 = 0, no "
-        "preconditioner, solver node at the root; before the grade / under rounding only the residual claims of the float-side stream hold",
+        "`noEarlierBreakdown`, `gradeReached` / `exactBreakdown`, `maskExact`, `solverSound`, `injective` (GMRES); x0 = 0, no "
+        "preconditioner; solver node at the root with one column, or (round 5, Properties/C06/Nested.lean) ONE solver leaf next to one operator with a "
+        "structural rule under ONE Kronecker (solver first) / Product (either order) / BlockDiag (solver first) node with any number of columns, each "
+        "column of the operand the node hands to the solver (kronOperand_1, X, inv(D) @ X, bdiagOperand_1) run to its grade, the batch modelled as "
+        "independent columns (withGmresCols / withCGCols), `S` invertible (`RInv`); C06_gmres_under_kron_witness instantiates it on "
+        "Kronecker([Dense 3x3, Identity(2)]); deeper nestings / several solver leaves still need `SolveContract`; before the grade / under rounding "
+        "only the residual claims of the float-side stream hold",
         "hypotheses on the input: `InvHyp` (invertible data along the selected rules), `Declared` (the asserted declarations are present), `Op.Good` "
         "(wf, dupSlice = false [clause sliced-repeated-index of C01], HermOK [C05]), `A.RealTyped`, `ScalarsOK` (input-level exclusion of the recorded "
         "clause scalar-times-annotated), `UnitaryHolds` for a plain Algorithm object",
